@@ -16,7 +16,7 @@ def run(tier, seed, replay=None):
         raise vlib.Infra("model of the pinned DecryptValueKey is no longer refuted")
     shutil.rmtree(p.workdir, ignore_errors=True)
     rep = vlib.run_harness(binary, ["c12", "-cases", os.path.join(r.workdir, "c12_cases.ndjson"), "-maxlen", "32" if tier == "quick" else "64",
-                                    "-sweep-every", "3" if tier == "quick" else "1"], timeout=7000)
+                                    "-sweep-every", "3" if tier == "quick" else "1", "-http-every", "4" if tier == "quick" else "1"], timeout=7000)
     if rep.get("extra", {}).get("read_error") or rep["inconclusive"]:
         raise vlib.Infra("c12 harness: %s" % rep.get("extra"))
     ck.add_report(rep)
